@@ -16,6 +16,9 @@ for pid in order:
     else:
         t = [p for p in props if p['id'] == pid][0]['title']
         out += '### %s – %s\n\n(check not delivered yet; see MANIFEST.json not_applicable and Appendix C for the plan)\n\n' % (pid, t)
+pf = os.path.join(ROOT, 'docs', 'py2coq.md')
+if os.path.exists(pf):
+    out += open(pf).read().rstrip() + '\n\n'
 out += '---------------------------------------------------------------------------------------------------\n\n' + rd('80_trusted.md')
 # seeded table
 out += '## 10. Independently seeded breaking changes and which checks catch them\n\n' + rd('90_seeded_intro.md')
